@@ -7,11 +7,30 @@ from multiprocessing import Pool
 from common import *
 
 
-def m_worker(args):
-    src, L, profile = args
-    import z3
-    from mlib import load_lib, witness_dummy  # noqa
-    return None
+def byte_parser_worker(args):
+    """Rank/Suit/Card/CardPair::from_str (and Display of the value) on L symbolic well-formed UTF-8 bytes, Engine M"""
+    src, L, mir = args
+    t0 = time.time()
+    import z3, mirx
+    from mlib import load_lib, sat_model, model_bytes, fn, run_fn, is_panic, sym_str, wf_utf8
+    out = dict(L=L, panics=[], error=None, paths=0)
+    try:
+        M = load_lib(src, 'dev', mir)
+        for kind, name in (('rank', 'Rank'), ('suit', 'Suit'), ('card', 'Card'), ('pair', 'CardPair')):
+            f = fn(M, f'<{name} as FromStr>::from_str')
+            bs, s_ = sym_str('b', L)
+            res = run_fn(M, f, [s_], [wf_utf8(bs)])
+            out['paths'] += len(res)
+            for r in res:
+                if is_panic(r):
+                    c, m = sat_model(r.pc)
+                    b = model_bytes(m, bs)
+                    out['panics'].append(dict(kind=kind, stage='parse', msg=r.result[1], hex=b.hex(), text=b.decode('utf-8', 'replace')))
+        out.update(stmts=M.stats['stmts'], queries=M.nq, solver_s=round(M.qtime, 1))
+    except mirx.Unsupported as e:
+        out['error'] = 'unsupported: ' + str(e)
+    out['wall'] = round(time.time() - t0, 1)
+    return out
 
 
 def token_worker(args):
@@ -65,7 +84,7 @@ def main():
         print(raw)
         sys.exit(1 if kv.get('result') == 'panic' else 0)
     obs = []
-    Lmax = 8 if a.tier == 'quick' else 13
+    Lmax = 7 if a.tier == 'quick' else 13
     try:
         # ---------------- K part
         if not a.only or 'kani' in a.only:
@@ -79,6 +98,29 @@ def main():
                           desc='CardPair::from_str on every well-formed UTF-8 string of <= 6 bytes: no panic; Ok => 4 ASCII bytes')]
             ksrc = snapshot('src-k')
             obs += run_family(ksrc, {'src/hand_range/card_pair.rs': module_text('c09_parsers.rs')}, hs, jobs=3)
+        # ---------------- M part: the byte parsers on longer strings (error paths keep the rejected text)
+        if not a.only or 'bytes' in a.only:
+            mir = mir_dump(src, 'dev')
+            blens = list(range(0, 13 if a.tier == 'quick' else 21))
+            with Pool(min(NCPU, len(blens))) as pool:
+                bres = pool.map(byte_parser_worker, [(src, L, mir) for L in reversed(blens)], chunksize=1)
+            berr = [d for d in bres if d['error']]
+            bp = [(d['L'], p) for d in bres for p in d['panics']]
+            bq = sum(d.get('queries', 0) for d in bres)
+            if berr:
+                obs.append(Obligation('byte-parsers', 'inconclusive', f"L={berr[0]['L']}: {berr[0]['error']}"))
+            groups = {}
+            for L, p in bp:
+                groups.setdefault(p['kind'] + (':non-ascii' if any(ord(ch) > 127 for ch in p['text']) else ':ascii'), []).append((L, p))
+            for role, lst in sorted(groups.items()):
+                L, p = min(lst, key=lambda x: x[0])
+                rc, kv, raw = replay(bins, 'debug', ['parse', p['kind'], p['hex']])
+                rep = kv.get('result') == 'panic'
+                obs.append(Obligation('no-panic:parse-' + role, 'violated', f"{len(lst)} panicking paths, shortest {p['text']!r} ({L} bytes) parsed as {p['kind']}: {p['msg']}; native: {kv.get('result')} {kv.get('message', '')}",
+                                      cex=dict(kind=p['kind'], hex=p['hex'], text=p['text'], native=kv.get('message'), reproduced=rep), key='byte-slice-in-char' if 'non-ascii' in role else 'parse-panic:' + role, queries=bq))
+            if not bp and not berr:
+                obs.append(Obligation('byte-parsers-total', 'holds', f"Rank/Suit/Card/CardPair::from_str on every well-formed UTF-8 string of 0..{blens[-1]} bytes: {sum(d['paths'] for d in bres)} paths, none panics", queries=bq,
+                                      extra=dict(per_length_bytes=[{k: d.get(k) for k in ('L', 'paths', 'wall')} for d in bres])))
         # ---------------- M part: tokens
         if not a.only or 'tokens' in a.only:
             lens = list(range(0, Lmax + 1))
@@ -127,7 +169,7 @@ def main():
                    functions_encoded=['<HandRangeToken as FromStr>::from_str', 'parse_probability', '<Rank as FromStr>::from_str', '<CardPair as FromStr>::from_str', '<Card as FromStr>::from_str',
                                       '<HandRangeToken as IntoIterator>::into_iter (+ closures)', '<RankPair as IntoIterator>::into_iter', 'RankRange::inclusive + into_iter', 'Rank::next',
                                       '<HandRangeToken as Display>::fmt', '<RankPair|CardPair|Card|Rank|Suit as Display>::fmt', 'Kani: Rank/Suit/Card/CardPair::from_str on raw bytes'],
-                   bounds=f'token strings of 0..{Lmax} bytes, every well-formed UTF-8 content (1-4 byte sequences); byte parsers: <= 6 bytes; longer strings are outside the claim',
+                   bounds=f'token strings of 0..{Lmax} bytes, every well-formed UTF-8 content (1-4 byte sequences); byte parsers: <= 6 bytes (Kani) and 0..{12 if a.tier == "quick" else 20} bytes (Engine M); longer strings are outside the claim',
                    stubs=['regex::Regex -> DFA generated from the pattern literals in the current source (S2)', 'f32::from_str -> S3', 'f32 Display -> NUM(w) (S4)', 'core::fmt plumbing -> S5', 'Vec/iterators -> S6', 'str -> S7'],
                    states_meaning='feasible MIR paths (each covers every string satisfying its path condition); transitions = solver queries')
     except (Inconclusive,) as e:
